@@ -170,6 +170,8 @@ type enumerator struct {
 	seed      seedState
 	names     []string
 	sequences int
+	stride    int // inner levels continue from every stride-th call only
+	offset    int
 }
 
 func (e *enumerator) build(prefix []op) *world {
@@ -190,7 +192,10 @@ func (e *enumerator) run(prefix []op, depth int) {
 	if w.broken {
 		return
 	}
-	for _, o := range menu(w, e.names, depth == 1) {
+	for i, o := range menu(w, e.names, depth == 1) {
+		if depth > 1 && i%e.stride != e.offset%e.stride {
+			continue
+		}
 		w2 := e.build(prefix)
 		w2.tr = e.tr
 		w2.jump()
@@ -224,10 +229,17 @@ func TestEnumerate(t *testing.T) {
 		if wide {
 			names = append(names, "_h")
 		}
-		e := &enumerator{tr: tr, seed: s, names: names}
+		stride := common.EnvInt("VERIF_STRIDE", 1)
+		e := &enumerator{tr: tr, seed: s, names: names, stride: stride, offset: int(common.Seed())}
 		d := depth
 		if !wide && i != 1 && d > 1 {
 			d = 1 // quick: deeper sequences from the "mixed" seed only
+		}
+		if d > 1 {
+			// all single calls first, then the longer sequences
+			e1 := &enumerator{tr: tr, seed: s, names: names, stride: 1}
+			e1.run(nil, 1)
+			meta[s.name+"/1"] = e1.sequences
 		}
 		e.run(nil, d)
 		meta[s.name] = e.sequences
